@@ -27,6 +27,15 @@ def _str_consts(exprs):
     return list(seen.values())
 
 
+def safe_check(s, timeout_ms, *assumptions):
+    """solver.check(); exceptions (resource limit reached, cancelled) count as unknown.  (Interrupting the context from a watchdog
+    thread was tried and dropped: it can crash the solver.)"""
+    try:
+        return s.check(*assumptions)
+    except z3.Z3Exception:
+        return z3.unknown
+
+
 def solve_obligation(ob, timeout_ms=10000, seed=0):
     t0 = time.time()
     if ob.static is not None:
@@ -49,13 +58,16 @@ def solve_obligation(ob, timeout_ms=10000, seed=0):
     for (sd, tmo) in attempts:
         s = z3.Solver()
         s.set("timeout", int(tmo))
+        # safety net: the wall-clock timeout is not honoured inside some nonlinear procedures, the (deterministic) resource limit is
+        s.set("rlimit", int(tmo) * 20000)
         s.set("random_seed", sd)
         for h in ob.hyps:
             s.add(h)
         s.add(z3.Not(ob.goal))
-        if len(sc) > 1:
+        if len(sc) > 1 and ob.kind != "lemma":
+            # (lemmas are generalised to pure polynomial arithmetic: an uninterpreted sort would take them out of the NRA fragment)
             s.add(z3.Distinct(*sc))
-        r = s.check()
+        r = safe_check(s, tmo)
         if r != z3.unknown:
             break
     ob.seconds = time.time() - t0
